@@ -10,7 +10,7 @@ import ast
 from typing import Dict, Iterable, List, Optional, Set, Tuple
 
 from ..cfg import CFG
-from ..core import AnalysisError, Cls, Fn, Repo, call_name, calls_in, dotted, last_attr, short, walk_no_nested
+from ..core import get_kw, AnalysisError, Cls, Fn, Repo, call_name, calls_in, dotted, last_attr, short, walk_no_nested
 from ..registry import AlgoRegistry, extract
 from ..report import Check
 from ..terms import Atom, Poly, TermBuilder, for_binding
@@ -138,6 +138,10 @@ def run(ck: Check, repo: Repo) -> None:
                      "(typestate: a module that received a detached TensorDict via to_module has no parameters())")
     ck.rule("C08.7", "batch coherence: at every call of a loss helper the observation, action, reward, next observation and done flag "
                      "handed over come from one and the same sampled batch, each in its own slot")
+    ck.rule("C08.8", "target networks own their tensors: what is installed into a target / shadow network (to_module of a TensorDict taken from an online network, "
+                     "load_state_dict of an online network's state) is a deep copy, never a view of the online network — otherwise every optimizer step of the online "
+                     "network moves the target by the full step and the soft update has nothing left to do")
+    _targets_owned(ck, repo)
     n_loss = 0
     n_soft = 0
     for modname, cname in VALUE_BASED:
@@ -235,6 +239,13 @@ def _check_target_alt(ck: Check, tb: TermBuilder, reg: AlgoRegistry, fn: Fn, sit
         else:
             if not selector:
                 bad_value.append(net)
+            else:
+                # double Q-learning: the online network only SELECTS the action — on the same (next) observation the target network is evaluated on
+                roles = sorted(o[5:] for o in a.origins if o.startswith("role:"))
+                ck.ob("C08.1", fn, a.node if a.node is not None else site, "next_obs" in roles and "obs" not in roles,
+                      f"{label}: the action that selects the bootstrapped value is the online network's arg-max on the NEXT observation",
+                      detail=f"the selecting call of `{net}` depends on {roles}: the target evaluates Q_target(s', argmax_a Q(s, a)) instead of Q_target(s', argmax_a Q(s', a))",
+                      construct=f"{label}: selector {net}(...) input")
     ck.ob("C08.1", fn, site, n_shared_calls >= 1 and not bad_value,
           f"{label}: every network that contributes a *value* to the target is a shared (target) network of the registry",
           detail=(f"eval network(s) {bad_value} used in value position (only arg-max selection is allowed)" if bad_value else
@@ -669,6 +680,10 @@ _MA = "agilerl/algorithms/maddpg.py"
 _MT = "agilerl/algorithms/matd3.py"
 _R = "agilerl/algorithms/dqn_rainbow.py"
 VARIANTS = [
+    ("shared-encoder-shallow-clone", "agilerl/utils/algo_utils.py", "        target_params: TensorDict = param_vals.clone().lock_()\n        target_params.to_module(other.encoder)", "        target_params: TensorDict = param_vals.clone(recurse=False).lock_()\n        target_params.to_module(other.encoder)", "fire", "C08.8"),
+    ("dqn-target-installed-without-clone", _D, "        target_params: TensorDict = param_vals.clone().lock_()\n", "        target_params: TensorDict = param_vals.lock_()\n", "fire", "C08.8"),
+    ("reinit-shared-assign-true", "agilerl/hpo/mutation.py", "            module.load_state_dict(state_dict, strict=False)\n", "            module.load_state_dict(state_dict, strict=False, assign=True)\n", "fire", "C08.8"),
+    ("cqn-double-selects-on-current-state", "agilerl/algorithms/cqn.py", "            q_idx = self.actor(next_states).argmax(dim=1).unsqueeze(1)", "            q_idx = self.actor(states).argmax(dim=1).unsqueeze(1)", "fire", "C08.1"),
     ("dqn-no-mask", _D, "y_j = rewards + self.gamma * q_target * (1 - dones)", "y_j = rewards + self.gamma * q_target", "fire", "C08.2"),
     ("dqn-mask-inverted", _D, "y_j = rewards + self.gamma * q_target * (1 - dones)", "y_j = rewards + self.gamma * q_target * dones", "fire", "C08"),
     ("dqn-mask-on-reward", _D, "y_j = rewards + self.gamma * q_target * (1 - dones)", "y_j = (rewards + self.gamma * q_target) * (1 - dones)", "fire", "C08.2"),
@@ -783,6 +798,83 @@ def _param_role(repo: Repo, callee: Fn, pname: str) -> Optional[str]:
     best = max(votes.items(), key=lambda kv: kv[1])
     total = sum(votes.values())
     return best[0] if best[1] * 2 > total or total == 1 else None
+
+
+# ------------------------------------------------------------------------------------------------ C08.8
+def _chain(e: ast.AST) -> Tuple[ast.AST, List[ast.Call]]:
+    """base expression and the method calls applied on top of it, innermost first: from_module(x).detach().clone().lock_() -> (from_module(x), [detach, clone, lock_])"""
+    calls: List[ast.Call] = []
+    cur = e
+    while isinstance(cur, ast.Call) and isinstance(cur.func, ast.Attribute):
+        calls.append(cur)
+        cur = cur.func.value
+    return cur, list(reversed(calls))
+
+
+def _deep_clone_in(calls: List[ast.Call]) -> bool:
+    for c in calls:
+        if c.func.attr in ("clone", "copy") or call_name(c) in ("copy.deepcopy",):
+            rec = get_kw(c, "recurse", 0)
+            if rec is None or (isinstance(rec, ast.Constant) and rec.value is True):
+                return True
+    return False
+
+
+def _targets_owned(ck: Check, repo: Repo) -> None:
+    n = 0
+    sites: List[Tuple[Fn, ast.Call]] = []
+    for m in repo.mods.values():
+        if not (m.name.startswith("agilerl.algorithms") or m.name == "agilerl.utils.algo_utils"):
+            continue
+        for f in list(m.functions.values()) + [x for c in m.classes.values() for x in c.methods.values()]:
+            for c in calls_in(f.node, nested=True):
+                if last_attr(c) == "to_module" and c.args:
+                    sites.append((f, c))
+    for f, c in sites:
+        cfg = CFG(f.node)
+        node = cfg.node_of(c)
+        src = c.func.value
+        # resolve the installed TensorDict through single-definition locals down to from_module(...)
+        chain_calls: List[ast.Call] = []
+        cur: ast.AST = src
+        guard = 0
+        while guard < 6:
+            guard += 1
+            base, calls = _chain(cur)
+            chain_calls = calls + chain_calls
+            if isinstance(base, ast.Name) and node is not None:
+                defs = cfg.defs_reaching(node, base.id)
+                vals = [cfg.value_of_def(d, base.id) for d in defs]
+                vals = [v for v in vals if v is not None]
+                if len(vals) >= 1 and all(ast.dump(v) == ast.dump(vals[0]) for v in vals):
+                    cur = vals[0]
+                    node = defs[0]
+                    continue
+            break
+        from_online = isinstance(base, ast.Call) and call_name(base).split(".")[-1] == "from_module"
+        if not from_online:
+            continue
+        n += 1
+        ck.ob("C08.8", f, c, _deep_clone_in(chain_calls), f"{f.qualname}: the TensorDict installed into `{short(c.args[0], 30)}` is a deep copy of the source network's parameters",
+              detail=f"chain on top of {short(base, 40)}: {[x.func.attr + ('(' + ', '.join(ast.unparse(k) for k in x.keywords) + ')' if x.keywords else '()') for x in chain_calls]} — without a deep "
+                     "clone the installed tensors are views of the live source parameters: the target network follows every optimizer step of the online network",
+              construct=f"{f.qualname}: ownership of the TensorDict installed into {short(c.args[0], 30)}")
+    ck.floor("C08.8", n, 2, "TensorDicts taken from a network and installed into another one")
+    # state dicts loaded into re-created target networks: load_state_dict(assign=True) makes the parameters alias the given tensors
+    k = 0
+    for q in ("Mutations.load_state_dicts", "Mutations.reinit_from_mutated"):
+        f = repo.fn("agilerl.hpo.mutation", q)
+        for c in calls_in(f.node, nested=True):
+            if last_attr(c) != "load_state_dict":
+                continue
+            k += 1
+            a = get_kw(c, "assign")
+            ck.ob("C08.8", f, c, a is None or (isinstance(a, ast.Constant) and a.value is False),
+                  f"{q}: the re-created target network copies the eval network's state (load_state_dict without assign=True)",
+                  detail="assign=True replaces the target's parameters by the tensors of the state dict, i.e. by the storage of the online network: target == online from then on, "
+                         "the soft update is a no-op",
+                  construct=f"{q}: {short(c, 60)}")
+    ck.floor("C08.8", k, 2, "load_state_dict calls re-creating shared networks")
 
 
 # ------------------------------------------------------------------------------------------------ C08.6 (hook)
